@@ -192,3 +192,54 @@ func VerifC04_RepeatWindow() {
 		vfReach("repeated")
 	}
 }
+
+// VerifC04_Classification: the tick carried by the context may lag the wall clock
+// at which the flush runs. The flush hands over alerts classified at the wall clock
+// (firing ones without an end, resolved ones with an end that has passed), and the
+// integration sees them like that. A never-notified group whose alerts are all
+// resolved must send nothing, whatever the lag; and what the dedup stage records as
+// firing / resolved is what is delivered as firing / resolved.
+//
+//vf:bounds unwind=12 decisions=200
+//vf:expect reach=resolved-only reach=has-firing
+func VerifC04_Classification() {
+	l, err := nflog.New(nflog.Options{Retention: time.Hour, Metrics: prometheus.NewRegistry()})
+	if err != nil {
+		panic(err)
+	}
+	recv := &nflogpb.Receiver{GroupName: "r", Integration: "webhook", Idx: 0}
+	dedup := NewDedupStage(hRS04(true), l, recv)
+	t0 := vfNow()
+	tick := t0.Add(vfSeconds("tickAt", 0, 3600))
+	vfAdvance(vfSeconds("tickAt2", 0, 3600) + vfSeconds("lag", 0, 600))
+	wall := vfNow()
+	vfAssume(!tick.After(wall))
+	// alerts as aggrGroup.flush hands them over at the wall clock
+	var alerts []*alert.Alert
+	nFiring := 0
+	for i := 0; i < 2; i++ {
+		a := hAlert04([]string{"A", "B"}[i], 0, t0)
+		if vfBool("resolved") {
+			a.EndsAt = wall.Add(-vfSeconds("endedAgo", 0, 900))
+		} else {
+			a.EndsAt = time.Time{}
+			nFiring++
+		}
+		alerts = append(alerts, a)
+	}
+	ctx := WithGroupKey(context.Background(), "gk")
+	ctx = WithRepeatInterval(ctx, time.Hour)
+	ctx = WithNow(ctx, tick)
+	ctx2, out, err := dedup.Exec(ctx, nil, alerts...)
+	vfAssert("exec-ok", err == nil)
+	firing, _ := FiringAlerts(ctx2)
+	resolved, _ := ResolvedAlerts(ctx2)
+	vfAssert("recorded-firing-is-delivered-firing", len(firing) == nFiring && len(resolved) == 2-nFiring)
+	if nFiring == 0 {
+		vfAssert("resolved-only-group-never-notifies", len(out) == 0)
+		vfReach("resolved-only")
+	} else {
+		vfAssert("first-notification-sent", len(out) == 2)
+		vfReach("has-firing")
+	}
+}
